@@ -165,6 +165,8 @@ var sharedTemplates = []map[string]string{
 	{"main.p": "add_key(ts, \"2021-05-27 06:54:14\")\nif n1 == 5 {\n default_time(ts, \"Asia/Shanghai\")\n} elif n1 == \"s\" {\n default_time(ts, \"America/New_York\")\n} else {\n default_time(ts, \"+3\")\n}\nadd_key(ts2, \"2021-05-27 06:54:14\")\ndefault_time(ts2, \"Europe/Berlin\")"},
 	{"main.p": "add_key(ts, \"2021-05-27 06:54:14\")\ndefault_time(ts, \"Asia/Tokyo\")\nadd_key(t2, \"2021-05-27 06:54:14\")\ndefault_time(t2, \"Nowhere/City\")\nadd_key(t3, \"2021-05-27 06:54:14\")\ndefault_time(t3, \"Australia/Sydney\")\ndatetime(n1, \"ms\", \"RFC3339\")"},
 	{"main.p": "add_key(ts, \"2021-05-27 06:54:14\")\ndefault_time(ts, \"Africa/Cairo\")\nsql_cover(q)\nadd_key(q2, \"SELECT * FROM files WHERE dir = 'C:\\\\' -- user's home\\nAND owner = 7\")\nsql_cover(q2)\nadd_key(q3, \"SELECT * FROM files WHERE dir = 'C:\\\\'\")\nsql_cover(q3)"},
+	{"main.p": "add_key(before, 1)\nuse(\"lib.p\")\nadd_key(never, 1)", "lib.p": "replace(message, \"a(b\", \"x\")"},
+	{"main.p": "add_key(a.b, message)\nrename(dst, a.b)\nxml(x, \"//b/@id\", o.p)\nset_tag(o.p)\nadd_key(c.d.e, 1)\ndrop_key(c.d.e)\nuppercase(dst)"},
 	{"main.p": "if n1 == 5 { x = 1 + \"a\" }\nadd_key(ok, true)\nuse(\"lib.p\")", "lib.p": "if message == \"\" { exit() }\ngrok(_, \"%{GREEDYDATA:all}\")\nadd_key(seen, all)"},
 }
 
